@@ -139,7 +139,7 @@ def gen_jobs(rng, tier: str) -> list[dict]:
                 if name == 'syntax-error':
                     continue            # a code object cannot be built from it
                 jobs.append(make_job(lambda p, r, s=src: s, set(), 'fixed:' + name, 'code', pol, True, True, rng))
-    max_size, nrand, per = (2, 60, 1) if tier == 'quick' else (3, 700, 1)
+    max_size, nrand, per = (2, 60, 1) if tier == 'quick' else (3, 450, 1)
     blocks = list(progen.enumerate_programs(max_size))
     if tier == 'quick':
         # all programs of size 1, a third of the programs of size 2 (rotating with the seed)
@@ -188,10 +188,10 @@ def real_traces(res: dict) -> dict:
             tr[t]['calls'].append([e['event'], e['line_no'], e['file_name']])
         elif ty == 'OnStartPrompt':
             # the stack entry Pdb printed last (text of an interaction that could not prompt may precede it)
-            ms = re.findall(r'^> .*\(\d+\)([^\n()]*)\(\)', e.get('prompt_text') or '', re.M)
-            m = None
+            ms2 = re.findall(r'^> .*\((\d+)\)([^\n()]*)\(\)', e.get('prompt_text') or '', re.M)
+            ms = [x[1] for x in ms2]
             tr[t]['prompts'].append({'event': e['event'], 'line': e['line_no'], 'file': e['file_name'], 'frame': e['frame_object_id'],
-                                     'func': ms[-1] if ms else '', 'at': order})
+                                     'func': ms[-1] if ms else '', 'text_line': int(ms2[-1][0]) if ms2 else None, 'at': order})
         elif ty == 'OnEndPrompt':
             tr[t]['cmds'].append(e['command'])
     return tr
@@ -322,6 +322,9 @@ def oracle(job: dict, res: dict, ref: dict, per: dict, traces: dict, match: dict
         spans = user_codes.get(p['func'])
         if spans is None:
             return False
+        if p.get('text_line') is not None and p['text_line'] != p['line']:
+            # Pdb shows another frame than the event's (known finding 3): the function shown is not the event frame's
+            return any(a <= p['line'] <= b for sp in user_codes.values() for a, b in sp) or '<module>' in user_codes
         return p['func'] == '<module>' or any(a <= p['line'] <= b for a, b in spans)
 
     callable_off = job['form'] == 'callable' and not tm
